@@ -231,3 +231,17 @@ impl Ev {
         Packet { is_error: false, device_address: addr, data: [vec![0, code], body].concat() }
     }
 }
+
+/// name of an error value judged by its raw bytes (`None`: not the image of any `ConvertPacketError`)
+pub fn cerr_raw(e: &ConvertPacketError) -> Option<&'static str> {
+    const N: usize = std::mem::size_of::<ConvertPacketError>();
+    let raw = |x: &ConvertPacketError| -> [u8; N] { unsafe { std::ptr::read(x as *const ConvertPacketError as *const [u8; N]) } };
+    let table = [
+        (ConvertPacketError::WrongSize, "WrongSize"),
+        (ConvertPacketError::UnknownEnumVariant, "UnknownEnumVariant"),
+        (ConvertPacketError::WrongType, "WrongType"),
+        (ConvertPacketError::Event(EventError::WrongEventType), "WrongEventType"),
+    ];
+    let r = raw(e);
+    table.iter().find(|(v, _)| raw(v) == r).map(|(_, n)| *n)
+}
